@@ -229,7 +229,7 @@ def run(ctx):
             continue
         line = {"id": len(lines), "objdims": rec["dims"], "gdims": rec["gdims"], "reduce": rec["reduce"], "gname": rec["gname"], "flox_dims": rec["flox_dims"],
                 "native_dims": rec["native_dims"], "same_coords": rec["same_coords"], "same_values": rec["same_values"], "same_attrs": rec["same_attrs"],
-                "same_name": rec["same_name"], "core_ok": rec["core_ok"], "passthrough_ok": rec["passthrough_ok"], "predict": True}
+                "same_name": rec["same_name"], "core_ok": rec["core_ok"], "passthrough_ok": rec["passthrough_ok"], "predict": True, "dataset": bool(rec["dataset"])}
         owner[line["id"]] = brief
         lines.append(line)
         ctx.nontrivial(str(brief))
